@@ -21,11 +21,13 @@ def make_runs(run):
         mode = MODES[k % len(MODES)]
         pat = UNIQUE_POSE[(k // 2) % len(UNIQUE_POSE)] if k % 2 == 0 else None
         big = None
-        flavor = ["corners", "mixed", "antiparallel", "stretched"][(k // 4) % 4]
+        flavor = ["corners", "mixed", "antiparallel", "stretched", "inside-near-face"][(k // 4) % 5]
+        if flavor == "inside-near-face":
+            mode = "larger"
         if k % 4 == 3:
             # copies (and mirror-image decoys) far from the origin, patterns whose only relabelling / look-alike is a reflection
             pat, big, flavor = ["mirrorsym5", "ch2f2", "chiral5", "weakchiral4"][(k // 4) % 4], True, "decoys"
-        p = RG.make_problem(run.rng, k, repl_mode=mode, flavor=flavor, with_terms=False, pattern=pat, big=big)
+        p = RG.make_problem(run.rng, k, repl_mode=mode, flavor=flavor, with_terms=False, pattern=pat, big=big, cellkind=(({5: "rot-ortho", 10: "mono-xy"}.get(k % 11)) if big is None else None))
         k += 1
         if p is None:
             continue
